@@ -16,7 +16,7 @@ RULE = ("case = random family + type from the schema-supported grammar (everythi
         "Config.dialect with the same options, forbid_extra_keys), defaults and factories of every leaf type, jsonschema "
         "annotations with hashable and unhashable metadata, self- and mutually-referencing dataclasses; built with every "
         "(dialect, all_refs, ref_prefix with / without trailing slash, with_definitions, with_dialect_uri) variant through "
-        "build_json_schema AND through sequences (<= 6) of JSONSchemaBuilder.build calls over a shared context. Oracle: no "
+        "build_json_schema AND through sequences (<= 6) of JSONSchemaBuilder.build calls over a shared context (optionally with a one-shot build_json_schema(context=builder.context, all_refs=<opposite>) in between). Oracle: no "
         "exception (recursion limit 400, RecursionError is a violation); the document is valid against the Draft 2020-12 "
         "metaschema; every $ref starts with the effective prefix and names a key of the collected definitions; "
         "definitions accumulate monotonically and a class's definition is identical whichever build registered it; "
@@ -107,14 +107,32 @@ def run_case(seed, tier, rec, st):
             else:
                 fam.exec_src(f"@dataclass\nclass Node{base}:\n    v: int = 0\n    other: Optional['Other'] = None\n@dataclass\nclass Other{base}:\n    back: Optional[Node] = None\n")
             types_ = [("raw", "Node"), ("raw", "List[Node]"), ("raw", "Optional[Node]")]
+        elif kind < 0.17:
+            # annotations that are not dataclass fields: inherited from an undecorated base / added by an undecorated subclass
+            facts = {"kind": "non_field_annotations"}
+            base = ", DataClassDictMixin" if rng.random() < 0.5 else ""
+            fam.exec_src("class PlainBase:\n    note: str\n    count: int = 0\n"
+                         f"@dataclass\nclass WithPlainBase(PlainBase{base}):\n    a: int = 0\n    b: Optional[datetime.date] = None\n"
+                         f"@dataclass\nclass Decorated{('(' + base[2:] + ')') if base else ''}:\n    a: int = 0\n"
+                         "class Undecorated(Decorated):\n    extra: int = 5\n    label: str = 'x'\n"
+                         "@dataclass\nclass Holder:\n    u: Undecorated\n    w: List[WithPlainBase] = field(default_factory=list)\n")
+            types_ = [("raw", "WithPlainBase"), ("raw", "Undecorated"), ("raw", "Holder")]
         elif kind < 0.3:
             ann = rng.choice(ANNOTATIONS)
             facts = {"kind": "annotated", "annotation": ann[1], "unhashable_metadata": ("{" in ann[1] or "[" in ann[1])}
             dflt = {"int": "2", "float": "1.5", "str": "'abc'", "List[int]": None, "Dict[str, int]": None, "List[str]": None}[ann[0]]
             cfg = config_fn(rng)
             cfg.pop("_aliases", None)
+            alias_ann = ""
+            if rng.random() < 0.4:
+                # the field (literally named x) renamed on output, through the annotation or through Config.aliases
+                if rng.random() < 0.5:
+                    alias_ann = ", Alias('AX')"
+                else:
+                    cfg["aliases"] = "{'x': 'CX'}"
+                facts["aliased"] = True
             cfg_src = ("    class Config(BaseConfig):\n" + "".join(f"        {k} = {v}\n" for k, v in cfg.items())) if cfg else ""
-            fsrc = f"    x: Annotated[{ann[0]}, {ann[1]}]" + (f" = {dflt}" if dflt and rng.random() < 0.6 else "")
+            fsrc = f"    x: Annotated[{ann[0]}, {ann[1]}{alias_ann}]" + (f" = {dflt}" if dflt and rng.random() < 0.6 else "")
             fam.exec_src(f"@dataclass\nclass AnnDC:\n{fsrc}\n{cfg_src}")
             types_ = [("raw", "AnnDC"), ("raw", f"Annotated[{ann[0]}, {ann[1]}]")]
         else:
@@ -199,7 +217,18 @@ def run_case(seed, tier, rec, st):
                 seen_defs = {}
                 eff_prefix = (prefix.rstrip("/") if prefix is not None else dialect.definitions_root_pointer)
                 docs = []
+                interleave = rng.randint(1, len(seq) - 1) if rng.random() < 0.6 else None
                 for step, ty in enumerate(seq):
+                    if step == interleave:
+                        # a one-shot call borrowing the builder's context with its own overrides: the builder's options
+                        # are the builder's (same prefix, so shared definitions stay closed under it)
+                        before = (b.context.dialect, b.context.all_refs, b.context.ref_prefix, b.context.plugins)
+                        eff_all = b.context.all_refs
+                        build_json_schema(T, context=b.context, all_refs=not eff_all, with_definitions=False, with_dialect_uri=True)
+                        after = (b.context.dialect, b.context.all_refs, b.context.ref_prefix, b.context.plugins)
+                        rec.count("builder_context_borrowed")
+                        if before != after:
+                            rec.violation("builder:context-options-changed-by-one-shot-call", {"type": tsrc, "before": common.short(before), "after": common.short(after)}, facts)
                     sd = b.build(ty).to_dict()
                     docs.append(sd)
                     defs = json.loads(json.dumps(b.get_definitions().to_dict()))
